@@ -1,3 +1,26 @@
-(* C06 correspondence: multi-program histories on the real Runtime vs Run/Loader.v. *)
-From V Require Export Corr.LoaderRun.
-Definition mismatches := lmismatches.
+(* C06 correspondence: multi-program histories on the real Runtime vs Run/Loader.v;
+   histories with a burst of lines sent back to back while one program is slow
+   vs Run/Fanout.v under a schedule in which that program is slow. *)
+From V Require Export Corr.LoaderRun Run.Fanout.
+Local Open Scope N_scope.
+
+Inductive c06case :=
+| CSeq (c : lcase)
+(* the harness supplies a schedule (orders of the map iteration, who finishes
+   when; the slow program finishes its first line as late as possible); the
+   schedule must settle and the states after every step must be the observed
+   ones *)
+| CSlow (id : N) (omit : bool) (ct : ctab) (vt : vtab) (hs : list hop) (obs : list snap).
+
+Definition c06_id (c : c06case) : N :=
+  match c with CSeq c => lcase_id c | CSlow i _ _ _ _ _ => i end.
+
+Definition c06_ok (c : c06case) : bool :=
+  match c with
+  | CSeq c => lcase_ok c
+  | CSlow _ omit ct vt hs obs =>
+      settle_all (vtab_get vt) true true omit (ctab_get ct) st_empty hs
+      && all2 snap_ok (htrace (vtab_get vt) true true omit (ctab_get ct) st_empty hs) obs
+  end.
+
+Definition mismatches (l : list c06case) : list N := failing c06_ok c06_id l.
